@@ -101,7 +101,8 @@ func c05Cells(tier string) []Cell {
 		for _, su := range []bool{false, true} {
 			for _, init := range []string{"A", "S"} {
 				for _, first := range []int{0, 13} {
-					c := FCfg{Front: front, SU: su, SR: true, MS: true, Init: init + "A", FailC: "00", Rand: 1, BCount: 1, Tags: []string{"window", fmt.Sprint(maxLen), fmt.Sprint(first)}}
+					// (sequences of 4 in both tiers: at 5 these cells need more memory than a worker should take)
+					c := FCfg{Front: front, SU: su, SR: true, MS: true, Init: init + "A", FailC: "00", Rand: 1, BCount: 1, Tags: []string{"window", "4", fmt.Sprint(first)}}
 					cells = append(cells, Cell{ID: c.ID()})
 				}
 			}
